@@ -247,8 +247,14 @@ def run(ctx):
         for sh in shapes['out']:
             if len(sh['args']) == t['nfixed'] + 1:
                 add(t, sh, 'list' if len(cases) % 2 else 'cl')
-    traces = run_cases(ctx, cases)
-    judge(ctx, cases, traces)
+    # in batches: the projected traces of a thorough run do not fit in memory at once
+    nsingle, samples, B = 0, [], 30000
+    for i in range(0, len(cases), B):
+        traces = run_cases(ctx, cases[i:i + B])
+        judge(ctx, cases[i:i + B], traces)
+        nsingle += sum(len(t['ev'][0]['tab']) for t in traces)
+        samples += [traces[len(traces) // 3], traces[-1]]
+        del traces
     kinds = {}
     for c in cases:
         kinds[c['target']['kind']] = kinds.get(c['target']['kind'], 0) + 1
@@ -258,8 +264,8 @@ def run(ctx):
     ctx.cov['constructors_run'] = len(chosen)
     ctx.cov['operators_run'] = len(dunder) + len(named) + len(un_d) + len(un_n)
     ctx.cov['methods_run'] = [m[0] for m in meths]
-    ctx.cov['single_channel_calls'] = sum(len(t['ev'][0]['tab']) for t in traces)
-    for t in (traces[len(traces) // 3], traces[-1]):
+    ctx.cov['single_channel_calls'] = nsingle
+    for t in (samples[0], samples[-1]):
         ctx.sample(dict(target=t['target']['cls'] or t['target']['expr'], args=canon(t['args'])[:400],
                         result=canon(t['ev'][0]['res'])[:600], units=t['ev'][0]['n']))
     ctx.cov['rule'] = ('every argument tuple TLC generates (arity 1-3 over templates %s) x every target that accepts the '
